@@ -88,10 +88,13 @@ impl<'a> SectionsBuilder<'a> {
         // a list item may start with a block that carries no text of its own (a code block, quote,
         // rule or table, e.g. "- ```" while typing): the item gets an empty line of text and the
         // block becomes its first child
-        let starts_with_text = matches!(
-            &blocks[range.start],
-            Para(_) | Plain(_) | Header(_) | Div(_) | BulletList(_) | OrderedList(_)
-        );
+        let starts_with_text = match &blocks[range.start] {
+            Para(_) | Plain(_) | Header(_) | Div(_) => true,
+            // a nested list stands in for the item's text, unless all of its items are empty
+            BulletList(list) => list.items.iter().any(|item| !item.is_empty()),
+            OrderedList(list) => list.items.iter().any(|item| !item.is_empty()),
+            _ => false,
+        };
 
         let rest = if starts_with_text {
             self.section_block(&blocks[range.start]);
